@@ -169,6 +169,35 @@ def make_interrupt(env, mods, spec, idx, dt):
         env.assume(D <= 4 * dt)
         f = env.real(f"fac{idx}", 1, 3, dim=0) if spec.get("factor", "sym") == "sym" else env.fixed(f"fac{idx}", spec["factor"], dim=0)
         return ti.LogarithmicInterrupts(D, f), {"kind": kind, "D": D, "factor": f}
+    if kind == "arbitrary":
+        # any deterministic schedule that honours the interrupt contract decided in C09 (answer >= query,
+        # strictly later than the previous answer): a non-deterministic stub returning fresh symbols.
+        # Covers geometric and user-defined schedules as far as the controller is concerned.
+        base = ti.InterruptsBase
+        gap = spec.get("min_gap", 0.25)
+
+        class ArbitraryInterrupts(base):
+            def __init__(self):
+                self.answers = []
+                self.dt = dt
+
+            def _fresh(self, t):
+                j = len(self.answers)
+                a = env.real(f"A{idx}_{j}", dim=1)
+                env.assume(a >= t)
+                env.assume(a <= t + 8 * dt)
+                if self.answers:
+                    env.assume(a >= self.answers[-1] + gap * dt)
+                self.answers.append(a)
+                return a
+
+            def initialize(self, t):
+                return self._fresh(t)
+
+            def next(self, t):
+                return self._fresh(t)
+
+        return ArbitraryInterrupts(), {"kind": kind}
     raise ValueError(kind)
 
 
@@ -234,7 +263,11 @@ def run_controller(env, cfg, with_stop=True):
     Recorder = make_tracker_class()
     trackers, tparams = [], []
     for i, spec in enumerate(cfg.get("trackers", [])):
-        intr, par = make_interrupt(env, mods, spec, i, dt)
+        if "share" in spec:
+            # the very same interrupt instance as an earlier tracker (TrackerCollection.from_data must un-share it)
+            intr, par = trackers[spec["share"]].interrupt, tparams[spec["share"]]
+        else:
+            intr, par = make_interrupt(env, mods, spec, i, dt)
         stop = None
         if with_stop and cfg.get("stop") and cfg["stop"]["tracker"] == i:
             stop = cfg["stop"]
